@@ -348,6 +348,7 @@ fn run_shard<C: Clone + Send + Debug + Serialize + 'static>(
     shard: usize,
     stop: &AtomicBool,
     max_shrink: u32,
+    scale: u32,
 ) -> StageStats {
     let mut ctx = ShardCtx {
         stage,
@@ -361,7 +362,7 @@ fn run_shard<C: Clone + Send + Debug + Serialize + 'static>(
     match &stage.source {
         Source::Random(mk, cases) => {
             let strat = mk();
-            let n = (*cases as usize + SHARDS - 1) / SHARDS;
+            let n = (*cases as usize * scale.max(1) as usize + SHARDS - 1) / SHARDS;
             let cfg = Config {
                 cases: n as u32,
                 failure_persistence: None,
@@ -449,7 +450,7 @@ pub fn random<C, F: Fn() -> BoxedStrategy<C> + Send + Sync + 'static>(f: F, case
 /// Type-erased stage.
 pub trait DynStage: Send + Sync {
     fn name(&self) -> &'static str;
-    fn run_all(&self, prop: &str, seed: u64, max_shrink: u32) -> StageStats;
+    fn run_all(&self, prop: &str, seed: u64, max_shrink: u32, scale: u32) -> StageStats;
     fn replay(&self, case: &serde_json::Value) -> Result<(Result<(), String>, String), String>;
 }
 
@@ -461,7 +462,7 @@ where
         self.name
     }
 
-    fn run_all(&self, prop: &str, seed: u64, max_shrink: u32) -> StageStats {
+    fn run_all(&self, prop: &str, seed: u64, max_shrink: u32, scale: u32) -> StageStats {
         let stop = AtomicBool::new(false);
         let mut total = StageStats {
             stage: self.name.to_string(),
@@ -473,7 +474,7 @@ where
             let hs: Vec<_> = (0..SHARDS)
                 .map(|sh| {
                     let stop = &stop;
-                    s.spawn(move || run_shard(prop, self, seed, sh, stop, max_shrink))
+                    s.spawn(move || run_shard(prop, self, seed, sh, stop, max_shrink, scale))
                 })
                 .collect();
             hs.into_iter().map(|h| h.join().expect("shard thread")).collect()
@@ -509,6 +510,8 @@ where
 
 pub struct Property {
     pub id: &'static str,
+    /// multiplier for the number of random cases of every stage
+    pub scale: u32,
     pub stages: Vec<Box<dyn DynStage>>,
     pub assumptions: Vec<String>,
 }
